@@ -1,0 +1,17 @@
+//go:build verif
+
+// Contracts for package types of 04-packet (comment-only; read by /verif's tibcvc).
+package types
+
+//@ func CommitPacket(packet) (result)
+//@   dyn packet = Packet
+//@   ensures hash: result == bytes(sha256(str(packet.Data))) && result != nil
+//@
+//@ func CommitAcknowledgement(data) (result)
+//@   ensures hash: result == bytes(sha256(str(data))) && result != nil
+//@
+//@ func (Packet).ValidateBasic() (err)
+//@   ensures iff: err == nil <==> (self.Sequence != 0 && len(self.Data) != 0)
+//@
+//@ func (CleanPacket).ValidateBasic() (err)
+//@   ensures iff: err == nil <==> self.Sequence != 0
